@@ -8,10 +8,16 @@ Every operation (1) refines its reference operation and keeps `Inv`, (2) panics 
 out-of-range argument, and then leaves the receiver untouched, (3) on an out-of-range argument
 either panics or leaves the value unchanged.  `run_refines` / `reachable_inv` lift this to every
 operation sequence.
+
+The operations are `LongChain`'s own mutators and the consuming methods a caller reaches through
+`bytes::Buf` (`copy_to_bytes`, `copy_to_slice`, `get_u8`, `get_u16`, `get_u32`: the `bytes` crate's
+default bodies over `remaining` / `chunk` / `advance`); the observing ones (`has_remaining`,
+`chunks_vectored`) are characterised for every chain satisfying `Inv`, hence every reachable one.
 -/
 import Penguin.Model.Chain
 import Penguin.Spec.Vec
 import Penguin.Lemmas.Chain
+import Penguin.Lemmas.ChainBuf
 
 namespace Penguin.C20
 open Penguin Penguin.Chain Penguin.Spec
@@ -163,6 +169,103 @@ theorem clear_refines (c c' : Chain) (h : c.clear = .ok (c', ())) :
   simp [Chain.clear] at h; subst h
   exact ⟨by simp [Inv], rfl⟩
 
+/-! ### The provided `Buf` methods that consume bytes -/
+
+theorem copyToBytes_refines (c c' : Chain) (n : Nat) (b : Bytes) (hi : Inv c)
+    (h : c.copyToBytes n = .ok (c', b)) :
+    Inv c' ∧ (abs c', b) = Vec.copyOut (abs c) n ∧ n ≤ (abs c).length := by
+  obtain ⟨hin, hout⟩ := copyToBytes_spec chain_lawful c n hi
+  unfold Chain.copyToBytes at h
+  by_cases hle : n ≤ (abs c).length
+  · obtain ⟨c1, e, i1, hf⟩ := hin hle
+    rw [e] at h; simp at h; obtain ⟨rfl, rfl⟩ := h
+    exact ⟨i1, by simp [Vec.copyOut, hf], hle⟩
+  · rw [hout (Nat.lt_of_not_le hle)] at h; simp at h
+
+theorem copyToSlice_refines (c c' : Chain) (n : Nat) (b : Bytes) (hi : Inv c)
+    (h : c.copyToSlice n = .ok (c', b)) :
+    Inv c' ∧ (abs c', b) = Vec.copyOut (abs c) n ∧ n ≤ (abs c).length := by
+  obtain ⟨hin, hout⟩ := copyToSlice_spec chain_lawful c n hi
+  unfold Chain.copyToSlice at h
+  by_cases hle : n ≤ (abs c).length
+  · obtain ⟨c1, e, i1, hf⟩ := hin hle
+    rw [e] at h; simp at h; obtain ⟨rfl, rfl⟩ := h
+    exact ⟨i1, by simp [Vec.copyOut, hf], hle⟩
+  · rw [hout (Nat.lt_of_not_le hle)] at h; simp at h
+
+theorem getU8_refines (c c' : Chain) (v : UInt8) (hi : Inv c) (h : c.getU8 = .ok (c', v)) :
+    Inv c' ∧ (abs c', v.toNat) = Vec.getBe (abs c) 1 ∧ 1 ≤ (abs c).length := by
+  obtain ⟨hin, hout⟩ := getU8_spec chain_lawful c hi
+  unfold Chain.getU8 at h
+  cases ha : abs c with
+  | nil => rw [hout ha] at h; simp at h
+  | cons b t =>
+    obtain ⟨c1, e, i1, hf⟩ := hin b t ha
+    rw [e] at h; simp at h; obtain ⟨rfl, rfl⟩ := h
+    exact ⟨i1, by simp [Vec.getBe, Vec.beValue, hf], by simp⟩
+
+theorem getU16_refines (c c' : Chain) (v : UInt16) (hi : Inv c) (h : c.getU16 = .ok (c', v)) :
+    Inv c' ∧ (abs c', v.toNat) = Vec.getBe (abs c) 2 ∧ 2 ≤ (abs c).length := by
+  obtain ⟨hin, hout⟩ := getU16_spec chain_lawful c hi
+  unfold Chain.getU16 at h
+  by_cases hle : 2 ≤ (abs c).length
+  · obtain ⟨c1, e, i1, hf⟩ := hin hle
+    rw [e] at h; simp at h; obtain ⟨rfl, rfl⟩ := h
+    exact ⟨i1, by rw [u16_value _ (by simp; omega)]; simp [Vec.getBe, hf], hle⟩
+  · rw [hout (Nat.lt_of_not_le hle)] at h; simp at h
+
+theorem getU32_refines (c c' : Chain) (v : UInt32) (hi : Inv c) (h : c.getU32 = .ok (c', v)) :
+    Inv c' ∧ (abs c', v.toNat) = Vec.getBe (abs c) 4 ∧ 4 ≤ (abs c).length := by
+  obtain ⟨hin, hout⟩ := getU32_spec chain_lawful c hi
+  unfold Chain.getU32 at h
+  by_cases hle : 4 ≤ (abs c).length
+  · obtain ⟨c1, e, i1, hf⟩ := hin hle
+    rw [e] at h; simp at h; obtain ⟨rfl, rfl⟩ := h
+    exact ⟨i1, by rw [u32_value _ (by simp; omega)]; simp [Vec.getBe, hf], hle⟩
+  · rw [hout (Nat.lt_of_not_le hle)] at h; simp at h
+
+/-- Asking for more bytes than the chain holds panics, and the chain is left as it was. -/
+theorem buf_past_end_panics (c : Chain) (hi : Inv c) :
+    (∀ n, (abs c).length < n → c.copyToBytes n = .error ⟨c⟩ ∧ c.copyToSlice n = .error ⟨c⟩) ∧
+    ((abs c).length < 1 → c.getU8 = .error ⟨c⟩) ∧
+    ((abs c).length < 2 → c.getU16 = .error ⟨c⟩) ∧
+    ((abs c).length < 4 → c.getU32 = .error ⟨c⟩) := by
+  refine ⟨fun n h => ⟨(copyToBytes_spec chain_lawful c n hi).2 h, (copyToSlice_spec chain_lawful c n hi).2 h⟩,
+    fun h => (getU8_spec chain_lawful c hi).2 (List.length_eq_zero_iff.mp (by omega)),
+    (getU16_spec chain_lawful c hi).2, (getU32_spec chain_lawful c hi).2⟩
+
+/-- A request within the contents is always served (no panic on an in-range argument). -/
+theorem buf_in_range_ok (c : Chain) (hi : Inv c) :
+    (∀ n, n ≤ (abs c).length → (∃ c', c.copyToBytes n = .ok (c', (abs c).take n)) ∧
+      (∃ c', c.copyToSlice n = .ok (c', (abs c).take n))) ∧
+    (1 ≤ (abs c).length → ∃ c' v, c.getU8 = .ok (c', v)) ∧
+    (2 ≤ (abs c).length → ∃ c' v, c.getU16 = .ok (c', v)) ∧
+    (4 ≤ (abs c).length → ∃ c' v, c.getU32 = .ok (c', v)) := by
+  refine ⟨fun n h => ⟨?_, ?_⟩, fun h => ?_, fun h => ?_, fun h => ?_⟩
+  · obtain ⟨c1, e, _⟩ := (copyToBytes_spec chain_lawful c n hi).1 h; exact ⟨c1, e⟩
+  · obtain ⟨c1, e, _⟩ := (copyToSlice_spec chain_lawful c n hi).1 h; exact ⟨c1, e⟩
+  · cases ha : abs c with
+    | nil => simp [ha] at h
+    | cons b t => obtain ⟨c1, e, _⟩ := (getU8_spec chain_lawful c hi).1 b t ha; exact ⟨c1, b, e⟩
+  · obtain ⟨c1, e, _⟩ := (getU16_spec chain_lawful c hi).1 h; exact ⟨c1, _, e⟩
+  · obtain ⟨c1, e, _⟩ := (getU32_spec chain_lawful c hi).1 h; exact ⟨c1, _, e⟩
+
+/-! ### The provided `Buf` methods that only observe -/
+
+/-- `has_remaining()` iff bytes remain. -/
+theorem hasRemaining_refines (c : Chain) (hi : Inv c) :
+    c.hasRemaining = Vec.hasRemaining (abs c) :=
+  hasRemaining_spec chain_lawful c hi
+
+/-- `chunks_vectored` with `k` slots: at most `k` slices, none empty, together a prefix of the
+    contents, and at least one when there is a slot and bytes remain (so a `writev` loop makes
+    progress). -/
+theorem chunksVectored_refines (c : Chain) (k : Nat) (hi : Inv c) :
+    (c.chunksVectored k).length ≤ k ∧ (∀ ch ∈ c.chunksVectored k, ch ≠ []) ∧
+      (∃ t, abs c = (c.chunksVectored k).flatten ++ t) ∧
+      (0 < k → abs c ≠ [] → c.chunksVectored k ≠ []) :=
+  chunksVectored_spec chain_lawful c k hi
+
 /-- All operations at once: the step keeps the invariant, does to the bytes what the reference
     operation does to the plain vector, returns what the reference returns, and a chain handed out by
     a split satisfies the invariant too. -/
@@ -246,6 +349,56 @@ theorem step_refines (c c' : Chain) (op : Op) (out : Out) (hi : Inv c) (h : c.st
       simp [Chain.step, hr, Except.map] at h; obtain ⟨rfl, rfl⟩ := h
       obtain ⟨i1, e⟩ := clear_refines c c1 hr
       exact ⟨i1, e, rfl, by simp⟩
+  | copyToBytes n =>
+    cases hr : c.copyToBytes n with
+    | error e => simp [Chain.step, hr, Except.map] at h
+    | ok r =>
+      obtain ⟨c1, b⟩ := r
+      simp [Chain.step, hr, Except.map] at h; obtain ⟨rfl, rfl⟩ := h
+      obtain ⟨i1, e, _⟩ := copyToBytes_refines c c1 n b hi hr
+      have e1 := congrArg Prod.fst e
+      have e2 := congrArg Prod.snd e
+      exact ⟨i1, by simpa [refStep] using e1, by simpa [outAbs, refStep] using e2, by simp⟩
+  | copyToSlice n =>
+    cases hr : c.copyToSlice n with
+    | error e => simp [Chain.step, hr, Except.map] at h
+    | ok r =>
+      obtain ⟨c1, b⟩ := r
+      simp [Chain.step, hr, Except.map] at h; obtain ⟨rfl, rfl⟩ := h
+      obtain ⟨i1, e, _⟩ := copyToSlice_refines c c1 n b hi hr
+      have e1 := congrArg Prod.fst e
+      have e2 := congrArg Prod.snd e
+      exact ⟨i1, by simpa [refStep] using e1, by simpa [outAbs, refStep] using e2, by simp⟩
+  | getU8 =>
+    cases hr : c.getU8 with
+    | error e => simp [Chain.step, hr, Except.map] at h
+    | ok r =>
+      obtain ⟨c1, v⟩ := r
+      simp [Chain.step, hr, Except.map] at h; obtain ⟨rfl, rfl⟩ := h
+      obtain ⟨i1, e, _⟩ := getU8_refines c c1 v hi hr
+      have e1 := congrArg Prod.fst e
+      have e2 := congrArg Prod.snd e
+      exact ⟨i1, by simpa [refStep] using e1, by simpa [outAbs, refStep] using e2, by simp⟩
+  | getU16 =>
+    cases hr : c.getU16 with
+    | error e => simp [Chain.step, hr, Except.map] at h
+    | ok r =>
+      obtain ⟨c1, v⟩ := r
+      simp [Chain.step, hr, Except.map] at h; obtain ⟨rfl, rfl⟩ := h
+      obtain ⟨i1, e, _⟩ := getU16_refines c c1 v hi hr
+      have e1 := congrArg Prod.fst e
+      have e2 := congrArg Prod.snd e
+      exact ⟨i1, by simpa [refStep] using e1, by simpa [outAbs, refStep] using e2, by simp⟩
+  | getU32 =>
+    cases hr : c.getU32 with
+    | error e => simp [Chain.step, hr, Except.map] at h
+    | ok r =>
+      obtain ⟨c1, v⟩ := r
+      simp [Chain.step, hr, Except.map] at h; obtain ⟨rfl, rfl⟩ := h
+      obtain ⟨i1, e, _⟩ := getU32_refines c c1 v hi hr
+      have e1 := congrArg Prod.fst e
+      have e2 := congrArg Prod.snd e
+      exact ⟨i1, by simpa [refStep] using e1, by simpa [outAbs, refStep] using e2, by simp⟩
 
 /-! ### Panics: only out of range, and the receiver is left as it was -/
 
@@ -304,6 +457,43 @@ theorem step_panics_only_out_of_range (c : Chain) (op : Op) (p : Panic Chain) (h
     · simp [Chain.step, hout (Nat.lt_of_not_le hle), Except.map] at h; subst h
       exact ⟨by simp [InRange, hlen]; omega, rfl⟩
   | clear => simp [Chain.step, Chain.clear, Except.map] at h
+  | copyToBytes n =>
+    obtain ⟨hin, hout⟩ := copyToBytes_spec chain_lawful c n hi
+    by_cases hle : n ≤ (abs c).length
+    · obtain ⟨c1, e, _⟩ := hin hle
+      simp [Chain.step, Chain.copyToBytes, e, Except.map] at h
+    · simp [Chain.step, Chain.copyToBytes, hout (Nat.lt_of_not_le hle), Except.map] at h; subst h
+      exact ⟨by simp [InRange]; omega, rfl⟩
+  | copyToSlice n =>
+    obtain ⟨hin, hout⟩ := copyToSlice_spec chain_lawful c n hi
+    by_cases hle : n ≤ (abs c).length
+    · obtain ⟨c1, e, _⟩ := hin hle
+      simp [Chain.step, Chain.copyToSlice, e, Except.map] at h
+    · simp [Chain.step, Chain.copyToSlice, hout (Nat.lt_of_not_le hle), Except.map] at h; subst h
+      exact ⟨by simp [InRange]; omega, rfl⟩
+  | getU8 =>
+    obtain ⟨hin, hout⟩ := getU8_spec chain_lawful c hi
+    cases ha : abs c with
+    | nil =>
+      simp [Chain.step, Chain.getU8, hout ha, Except.map] at h; subst h
+      exact ⟨by simp [InRange, ha], rfl⟩
+    | cons b t =>
+      obtain ⟨c1, e, _⟩ := hin b t ha
+      simp [Chain.step, Chain.getU8, e, Except.map] at h
+  | getU16 =>
+    obtain ⟨hin, hout⟩ := getU16_spec chain_lawful c hi
+    by_cases hle : 2 ≤ (abs c).length
+    · obtain ⟨c1, e, _⟩ := hin hle
+      simp [Chain.step, Chain.getU16, e, Except.map] at h
+    · simp [Chain.step, Chain.getU16, hout (Nat.lt_of_not_le hle), Except.map] at h; subst h
+      exact ⟨by simp [InRange]; omega, rfl⟩
+  | getU32 =>
+    obtain ⟨hin, hout⟩ := getU32_spec chain_lawful c hi
+    by_cases hle : 4 ≤ (abs c).length
+    · obtain ⟨c1, e, _⟩ := hin hle
+      simp [Chain.step, Chain.getU32, e, Except.map] at h
+    · simp [Chain.step, Chain.getU32, hout (Nat.lt_of_not_le hle), Except.map] at h; subst h
+      exact ⟨by simp [InRange]; omega, rfl⟩
 
 /-- An out-of-range argument either panics (leaving the receiver as it was) or is ignored. -/
 theorem step_out_of_range (c : Chain) (op : Op) (hi : Inv c) (h : ¬ InRange c op) :
@@ -337,6 +527,21 @@ theorem step_out_of_range (c : Chain) (op : Op) (hi : Inv c) (h : ¬ InRange c o
     simp [InRange, hlen] at h
     exact Or.inl (by simp [Chain.step, (advance_spec c n hi).2 h, Except.map])
   | clear => simp [InRange] at h
+  | copyToBytes n =>
+    simp [InRange] at h
+    exact Or.inl (by simp [Chain.step, ((buf_past_end_panics c hi).1 n h).1, Except.map])
+  | copyToSlice n =>
+    simp [InRange] at h
+    exact Or.inl (by simp [Chain.step, ((buf_past_end_panics c hi).1 n h).2, Except.map])
+  | getU8 =>
+    simp only [InRange, Nat.not_le] at h
+    exact Or.inl (by simp [Chain.step, (buf_past_end_panics c hi).2.1 h, Except.map])
+  | getU16 =>
+    simp only [InRange, Nat.not_le] at h
+    exact Or.inl (by simp [Chain.step, (buf_past_end_panics c hi).2.2.1 h, Except.map])
+  | getU32 =>
+    simp only [InRange, Nat.not_le] at h
+    exact Or.inl (by simp [Chain.step, (buf_past_end_panics c hi).2.2.2 h, Except.map])
 
 /-- An in-range argument is always accepted. -/
 theorem step_in_range_ok (c : Chain) (op : Op) (hi : Inv c) (h : InRange c op) :
@@ -530,6 +735,31 @@ theorem step_retag (f : Tag → Tag) (c : Chain) (op : Op) :
     | error e => simp [Except.map, retagRes]
     | ok v => obtain ⟨a, u⟩ := v; simp [Except.map, retagRes, retagOut]
   | clear => simp [Chain.step, retagOp, Chain.clear, Except.map, retagRes, retagChain, retagOut]
+  | copyToBytes n =>
+    simp only [Chain.step, retagOp, Chain.copyToBytes, copyToBytes_commutes (retag_commutes f)]
+    cases Chain.buf.copyToBytes c n with
+    | error e => simp [Except.map, retagRes, mapRes]
+    | ok v => obtain ⟨a, b⟩ := v; simp [Except.map, retagRes, mapRes, retagOut]
+  | copyToSlice n =>
+    simp only [Chain.step, retagOp, Chain.copyToSlice, copyToSlice_commutes (retag_commutes f)]
+    cases Chain.buf.copyToSlice c n with
+    | error e => simp [Except.map, retagRes, mapRes]
+    | ok v => obtain ⟨a, b⟩ := v; simp [Except.map, retagRes, mapRes, retagOut]
+  | getU8 =>
+    simp only [Chain.step, retagOp, Chain.getU8, getU8_commutes (retag_commutes f)]
+    cases Chain.buf.getU8 c with
+    | error e => simp [Except.map, retagRes, mapRes]
+    | ok v => obtain ⟨a, b⟩ := v; simp [Except.map, retagRes, mapRes, retagOut]
+  | getU16 =>
+    simp only [Chain.step, retagOp, Chain.getU16, getU16_commutes (retag_commutes f)]
+    cases Chain.buf.getU16 c with
+    | error e => simp [Except.map, retagRes, mapRes]
+    | ok v => obtain ⟨a, b⟩ := v; simp [Except.map, retagRes, mapRes, retagOut]
+  | getU32 =>
+    simp only [Chain.step, retagOp, Chain.getU32, getU32_commutes (retag_commutes f)]
+    cases Chain.buf.getU32 c with
+    | error e => simp [Except.map, retagRes, mapRes]
+    | ok v => obtain ⟨a, b⟩ := v; simp [Except.map, retagRes, mapRes, retagOut]
 
 /-- `==` is equality of the bytes. -/
 theorem seg_beq_iff (s t : Seg) : s.beq t = true ↔ s.bytes = t.bytes := by
@@ -560,6 +790,78 @@ theorem seg_cmp_spec (s t : Seg) :
         · have he : x = y := UInt8.le_antisymm (UInt8.not_lt.mp h2) (UInt8.not_lt.mp h1)
           subst he
           simp [h1, ih ys]
+
+/-! ### `CowBytes` through the provided `Buf` methods -/
+
+/-- In range, each consuming `Buf` method of a `CowBytes` is the vector operation on its bytes, with
+    the variant kept. -/
+theorem seg_buf_refine (s : Seg) :
+    (∀ n, n ≤ s.bytes.length →
+      s.copyToBytes n = .ok (⟨s.tag, (Vec.copyOut s.bytes n).1⟩, (Vec.copyOut s.bytes n).2) ∧
+      s.copyToSlice n = .ok (⟨s.tag, (Vec.copyOut s.bytes n).1⟩, (Vec.copyOut s.bytes n).2)) ∧
+    (1 ≤ s.bytes.length → ∃ v, s.getU8 = .ok (⟨s.tag, (Vec.getBe s.bytes 1).1⟩, v) ∧
+      v.toNat = (Vec.getBe s.bytes 1).2) ∧
+    (2 ≤ s.bytes.length → ∃ v, s.getU16 = .ok (⟨s.tag, (Vec.getBe s.bytes 2).1⟩, v) ∧
+      v.toNat = (Vec.getBe s.bytes 2).2) ∧
+    (4 ≤ s.bytes.length → ∃ v, s.getU32 = .ok (⟨s.tag, (Vec.getBe s.bytes 4).1⟩, v) ∧
+      v.toNat = (Vec.getBe s.bytes 4).2) := by
+  have L := seg_lawful s.tag
+  refine ⟨fun n h => ⟨?_, ?_⟩, fun h => ?_, fun h => ?_, fun h => ?_⟩
+  · obtain ⟨s1, e, t1, b1⟩ := (copyToBytes_spec L s n rfl).1 h
+    cases s1; simp at t1 b1; subst t1 b1
+    simpa [Seg.copyToBytes, Vec.copyOut] using e
+  · obtain ⟨s1, e, t1, b1⟩ := (copyToSlice_spec L s n rfl).1 h
+    cases s1; simp at t1 b1; subst t1 b1
+    simpa [Seg.copyToSlice, Vec.copyOut] using e
+  · cases hb : s.bytes with
+    | nil => simp [hb] at h
+    | cons b t =>
+      obtain ⟨s1, e, t1, b1⟩ := (getU8_spec L s rfl).1 b t hb
+      cases s1; simp at t1 b1; subst t1 b1
+      exact ⟨b, by simpa [Seg.getU8, Vec.getBe] using e, by simp [Vec.getBe, Vec.beValue]⟩
+  · obtain ⟨s1, e, t1, b1⟩ := (getU16_spec L s rfl).1 h
+    cases s1; simp at t1 b1; subst t1 b1
+    exact ⟨_, by simpa [Seg.getU16, Vec.getBe] using e, by rw [u16_value _ (by simp; omega)]; rfl⟩
+  · obtain ⟨s1, e, t1, b1⟩ := (getU32_spec L s rfl).1 h
+    cases s1; simp at t1 b1; subst t1 b1
+    exact ⟨_, by simpa [Seg.getU32, Vec.getBe] using e, by rw [u32_value _ (by simp; omega)]; rfl⟩
+
+/-- Past the end every consuming `Buf` method of a `CowBytes` panics and leaves the value as it was,
+    whichever the variant. -/
+theorem seg_buf_out_of_range (s : Seg) :
+    (∀ n, s.bytes.length < n → s.copyToBytes n = .error ⟨s⟩ ∧ s.copyToSlice n = .error ⟨s⟩) ∧
+    (s.bytes.length < 1 → s.getU8 = .error ⟨s⟩) ∧
+    (s.bytes.length < 2 → s.getU16 = .error ⟨s⟩) ∧
+    (s.bytes.length < 4 → s.getU32 = .error ⟨s⟩) := by
+  have L := seg_lawful s.tag
+  exact ⟨fun n h => ⟨(copyToBytes_spec L s n rfl).2 h, (copyToSlice_spec L s n rfl).2 h⟩,
+    fun h => (getU8_spec L s rfl).2 (List.length_eq_zero_iff.mp (by omega)),
+    (getU16_spec L s rfl).2, (getU32_spec L s rfl).2⟩
+
+/-- The observing `Buf` methods of a `CowBytes` are functions of the bytes only: `has_remaining`
+    iff it holds bytes, and `chunks_vectored` offers all of them as one slice (none when there is
+    no slot or no byte). -/
+theorem seg_buf_observers (s : Seg) (k : Nat) :
+    s.hasRemaining = Vec.hasRemaining s.bytes ∧
+    s.chunksVectored k = (if k = 0 ∨ s.bytes = [] then [] else [s.bytes]) := by
+  have hr : s.hasRemaining = Vec.hasRemaining s.bytes := hasRemaining_spec (seg_lawful s.tag) s rfl
+  refine ⟨hr, ?_⟩
+  have hr' : Seg.buf.hasRemaining s = Vec.hasRemaining s.bytes := hr
+  simp only [Seg.chunksVectored, BufImpl.chunksVectored, hr', Vec.hasRemaining]
+  by_cases hk : k = 0
+  · simp [hk]
+  · cases hb : s.bytes with
+    | nil => simp [hk]
+    | cons b t => simp [hk, Seg.buf, hb]
+
+/-- For every value a caller can hold: `has_remaining()` iff bytes remain, and `chunks_vectored`
+    offers non-empty slices that form a prefix of the contents. -/
+theorem reachable_buf (c : Chain) (k : Nat) (h : Reachable c) :
+    c.hasRemaining = Vec.hasRemaining (abs c) ∧
+    (c.chunksVectored k).length ≤ k ∧ (∀ ch ∈ c.chunksVectored k, ch ≠ []) ∧
+      (∃ t, abs c = (c.chunksVectored k).flatten ++ t) ∧
+      (0 < k → abs c ≠ [] → c.chunksVectored k ≠ []) :=
+  ⟨hasRemaining_refines c (reachable_inv c h), chunksVectored_refines c k (reachable_inv c h)⟩
 
 /-! ### Non-vacuity: the hypotheses are met by concrete non-trivial values -/
 
